@@ -82,6 +82,39 @@ def r6_4(ctx, fx):
     ctx.floor(rid, n, 2, "public members returning last_generator")
 
 
+def r6_7(ctx, fx):
+    from pplv import flow
+    rid = "R6.7"
+    ctx.rule(rid, "witness follows the tableau: the cached point last_generator is what later additions of constraints are tested against to decide whether the basis stays feasible. Every run of a pivoting routine (compute_simplex_using_steepest_edge_float / compute_simplex_using_exact_pricing) in MIP_Problem is followed, on every path to the exit, by compute_generator() (which re-reads the point from the tableau) or by the verdict UNSATISFIABLE (no point is claimed)")
+    n = 0
+    seen = set()
+    for f in fx.functions:
+        if f.clsn != "MIP_Problem" or f.flag("pattern") or not f.cfg or (f.relfile, f.line) in seen:
+            continue
+        seen.add((f.relfile, f.line))
+        if f.name.startswith("compute_simplex_using"):
+            continue
+        for c in f.calls():
+            if not (f.call_name(c) or "").startswith("compute_simplex_using"):
+                continue
+            n += 1
+            inst = "MIP_Problem::%s after %s" % (f.name, f.call_name(c))
+
+            def ok(y):
+                if y["k"] in ("mcall", "call") and f.call_name(y) == "compute_generator":
+                    return True
+                if y["k"] == "assign":
+                    l, r = f.deref(y["c"][0]), f.deref(y["c"][1])
+                    return l is not None and l.get("n") == "status" and r is not None and "UNSATISFIABLE" in f.text(r) and "?" not in f.text(r)
+                return False
+            p = flow.must_follow(f, c, ok)
+            if p is None:
+                ctx.ok(rid, inst, f.where(c))
+            else:
+                ctx.violation(rid, inst, f.where(c), "the tableau is pivoted but a path returns with the old last_generator still cached (%s): a constraint added later is tested against a point that is not the current vertex" % flow.render_path(f, p))
+    ctx.floor(rid, n, 4, "pivoting runs")
+
+
 def units():
     return [F.lib_unit("MIP_Problem.cc"),
             F.driver_unit("all_headers.cc", file_re=r"MIP_Problem_(inlines|templates)\.hh")]
@@ -103,5 +136,6 @@ def run(ctx):
     ctx.rule("R6.5", "swap-remove: in a forward counted loop of MIP_Problem that shrinks its bound and moves the last row into the current position, the index is stepped back on every path before the increment (a tableau row swapped in while erasing the artificials must itself be examined, else its equality is silently dropped in phase 2)")
     k = idioms.swap_remove(ctx, "R6.5", [f for f in fx.functions if f.clsn == "MIP_Problem" and not f.flag("pattern")], "its artificial variable stays basic and its row is no longer enforced")
     ctx.floor("R6.5", k, 1, "swap-remove loops in MIP_Problem")
+    r6_7(ctx, fx)
     from rules import dirty
     dirty.run(ctx, "R6.6", fx, lambda f: f.file.endswith("MIP_Problem.cc"), 28, "judged on MIP_Problem.cc")
